@@ -767,7 +767,9 @@ func (n *Neutral) unparen(t *rapid.T, f *File) (string, EditDesc, bool) {
 			fams = append(fams, fm)
 		}
 	}
-	sites = byFam[fams[rapid.IntRange(0, len(fams)-1).Draw(t, "family")]]
+	fam := fams[rapid.IntRange(0, len(fams)-1).Draw(t, "family")]
+	sites = byFam[fam]
+	famName := map[int]string{5: "mul", 4: "add", 31: "and", 32: "xor", 33: "or", 21: "land", 22: "lor"}[fam]
 	st := sites[rapid.IntRange(0, len(sites)-1).Draw(t, "site")]
 	i, j := st[0], st[1]
 	out := f.Src[:f.Toks[i].Off] + " " + f.Src[f.Toks[i].End:f.Toks[j].Off] + " " + f.Src[f.Toks[j].End:]
@@ -779,7 +781,7 @@ func (n *Neutral) unparen(t *rapid.T, f *File) (string, EditDesc, bool) {
 	if !verify(out, want) {
 		return "", EditDesc{}, false
 	}
-	return out, EditDesc{Class: "unparen.assoc", Tok: i, Off: f.Toks[i].Off, Arg: f.Src[f.Toks[i].Off:f.Toks[j].End], InExpr: true}, true
+	return out, EditDesc{Class: "unparen.assoc." + famName, Tok: i, Off: f.Toks[i].Off, Arg: f.Src[f.Toks[i].Off:f.Toks[j].End], InExpr: true}, true
 }
 
 // assocSites finds `X op1 Y` at the head of a chain `X op1 Y op2 ...` that the grammar already groups as
